@@ -5,8 +5,8 @@ import (
 	"verif/harness/gen"
 )
 
-var allBackends = []string{BBolt, BBolt, BBolt, BBoltRaw, BadgerMem, BadgerMem, BadgerDisk}
-var threeBackends = []string{BBolt, BBolt, BadgerMem, BadgerDisk}
+var allBackends = []string{BBolt, BBolt, BBolt, BBoltRaw, BadgerMem, BadgerMem, BadgerDisk, BadgerRaw}
+var threeBackends = []string{BBolt, BBolt, BadgerMem, BadgerDisk, BadgerRaw}
 
 var modelAssumptions = []string{
 	"the reference model (harness/model) encodes the documented semantics; it is cross-checked on order/Boolean laws by the C10 and C16 checks",
@@ -20,7 +20,7 @@ var seqGeneral = &SeqCfg{
 
 var seqBulk = &SeqCfg{
 	Focus: "bulk", Ops: [2]int{5, 12}, NColls: [2]int{1, 2}, InitDocs: []int{0, 1, 2, 5, 17, 37, 60, 100, 150, 400, 1000},
-	AuditEvery: [2]int{4, 8}, Queries: 0, Backends: []string{BBolt, BBolt, BBolt, BadgerMem, BadgerDisk, BBoltRaw},
+	AuditEvery: [2]int{4, 8}, Queries: 0, Backends: []string{BBolt, BBolt, BBolt, BadgerMem, BadgerDisk, BBoltRaw, BadgerRaw},
 	W: weights(map[string]int{"CreateCollection": 0, "DropCollection": 4, "HasCollection": 0, "ListCollections": 0, "CreateIndex": 6, "DropIndex": 4, "HasIndex": 0, "ListIndexes": 0,
 		"Insert": 3, "InsertOne": 0, "Save": 0, "ReplaceById": 0, "UpdateById": 1, "Update": 22, "UpdateFunc": 26, "Delete": 14, "DeleteById": 1,
 		"FindAll": 2, "Count": 1, "FindById": 0, "CreateByQuery": 1, "Reopen": 0, "hostileBatchPct": 0, "rewriteIDPct": 0, "badExpPct": 0}),
@@ -29,7 +29,7 @@ var seqBulk = &SeqCfg{
 
 var seqBulkBig = &SeqCfg{
 	Focus: "bulk-big", Ops: [2]int{3, 6}, NColls: [2]int{1, 1}, InitDocs: []int{1500, 2500, 4000},
-	AuditEvery: [2]int{3, 6}, Queries: 0, Backends: []string{BBolt, BBolt, BadgerMem, BadgerDisk},
+	AuditEvery: [2]int{3, 6}, Queries: 0, Backends: []string{BBolt, BBolt, BadgerMem, BadgerDisk, BadgerRaw},
 	W: seqBulk.W, IDStyles: true, BigPad: true,
 }
 
